@@ -36,6 +36,21 @@ Scope
               refilled with part of the content under other metadata / weights.  Both formats.
                 quick    : H n<=3 k<=2; D n<=3 k<=2; T, M n<=3 k<=2
                 thorough : H n<=3 k<=3 and n=4 k<=2; D, T, M n<=3 k<=3 and n=4 k<=1
+              Second generation: for every directly built object of the universes below the file is loaded and
+              the LOADED object is edited through the public mutators, one case per single edit of each of these
+              kinds - set_weight of each record (weighted); one metadata field of each record set and another one
+              deleted (set_attr_to_edge_metadata / remove_attr_from_edge_metadata); the metadata of each record
+              replaced (set_edge_metadata; not Multiplex); each record removed and re-inserted with another weight /
+              metadata; each record removed and a hyperedge the object never held inserted; each record removed
+              BEFORE the first save, and after loading a new hyperedge inserted, the removed one re-inserted and its
+              weight set; for each node: one metadata field set and another deleted, its metadata replaced
+              (set_node_metadata; not Multiplex), remove_node without / with keep_edges followed by a new hyperedge,
+              a new node with metadata joined to the object by a new hyperedge; one / two new hyperedges (over present
+              nodes, at present or new times / layers); a new isolated node; set_attr_to_hypergraph_metadata; all
+              kinds of edit in a row.  The edited loaded object is compared with the abstract content, saved again
+              in each format and loaded again: all four (first format, second format) pairs.
+                quick    : H, T, M n<=2 k<=2 and n=3 k<=1; D n=2 k<=2 and n=3 k<=1
+                thorough : H n<=3 k<=3; D n<=3 k<=2; T, M n<=2 k<=3 and n=3 k<=2
   sampled     Seeded random objects beyond the small scope (up to 7 nodes, hyperedges of size up to 5, up to 6 records,
               random nested metadata, isolated nodes, repeated node sets across times / layers, weight 0 excluded),
               objects whose hypergraph metadata was replaced through set_hypergraph_metadata (so it lacks the
@@ -43,8 +58,13 @@ Scope
               node, a hyperedge) before being saved, random histories (a random object of <= 6 nodes and <= 5
               records followed by 2-11 random steps: add_node of an absent label - possibly one removed earlier -,
               add_edge of an absent record - possibly over a member the object does not hold -, remove_edge,
-              remove_edge + re-insertion, remove_node without / with keep_edges, clear), random .hgr files (<= 8
-              vertices, <= 6 hyperedges) and random HIF documents (<= 6 nodes, <= 3 edges).
+              remove_edge + re-insertion, remove_node without / with keep_edges, clear), random second-generation
+              histories (a random object of <= 6 nodes and <= 5 records, in 60% of the cases 1-5 random steps -
+              removals included - before the first save, then 1-8 random steps on the loaded object: the steps above
+              plus set_weight, set / delete of a metadata field or replacement of the metadata of a node or
+              hyperedge, set_attr_to_hypergraph_metadata; quick: two of the four format pairs per history,
+              alternating; thorough: all four), random .hgr files (<= 8 vertices, <= 6 hyperedges) and random HIF
+              documents (<= 6 nodes, <= 3 edges).
 Oracle
   Round trip: the deep snapshot of the saved object taken through the public API only (type, is_weighted, get_nodes
   (metadata=True), get_edges, get_weight, get_edge_metadata, get_hypergraph_metadata) before saving is compared with
@@ -63,6 +83,19 @@ Oracle
   compared as well whenever that of the saved object agreed with the abstract content.  So residue that removals
   leave inside the saved object (stale metadata or adjacency entries) must not come back as nodes, hyperedges or
   metadata of the loaded one, and nothing that the history left in place may be lost.
+  Second generation: "returns an object with the same nodes, hyperedges, weights and metadata" is read as: the
+  returned object IS that hypergraph for the public API, also under further public edits.  The abstract content
+  after the edits is computed by model_step from (steps before saving + edits).  A never-saved twin (the same steps
+  and edits on an object that does not go through a file) must report exactly that content, otherwise the case is
+  skipped and counted (the mutators are C01-C04's business); likewise if the first save + load raises or the loaded
+  object differs from the saved content already (the round-trip / history cases report that).  Then (a) the edits
+  must not raise on the loaded object and the edited loaded object must report the abstract content through the same
+  getters, clause by clause (keys "... [gen2 edit] [type/format]") - this exposes state that the loader installs
+  wrongly but that only shows after an edit, e.g. an id counter restored wrongly so that a new hyperedge takes over
+  weight / metadata of an old one; (b) the edited loaded object is an object like any other: save + load of it must
+  again return the abstract content and must not modify it (keys "... [gen2 save] [type/format>format]") - this
+  exposes what the loader leaves behind and the next save writes back, e.g. the reserved key weight inside the
+  loaded hyperedge metadata, stale after set_weight.
   hMETIS: a 12-line reference reader (whitespace tokens, '%' comments).  HIF: "one hyperedge per incidence set" up to
   a bijection between the file's node names and the nodes of the result (brute force), under which every node record
   must be what get_node_metadata returns, every edge record what get_edge_metadata returns and every incidence record
@@ -71,6 +104,9 @@ Limits
   * Weight equality is numeric (2 == 2.0); metadata equality is Python ==.
   * Reserved keys weight / time / layer are never generated inside hyperedge metadata; "weighted" / "type" never
     inside hypergraph metadata (the constructors overwrite them).
+  * Second generation: the in-place setters are never given the reserved keys weight / time / layer as field names;
+    incidence metadata and add_empty_edge are not exercised; after a failed clause of stage (a) the second save is
+    not attempted.
   * hMETIS: nothing is demanded about the node set (isolated vertices) nor about weightedness of files without
     weights; duplicate hyperedges and repeated vertices in a line are not generated.
   * HIF: two edge names with the same incidence set are not generated (a Hypergraph cannot hold parallel hyperedges);
@@ -138,6 +174,21 @@ class Rep:
         if not cond:
             self.failed.append(key)
         return cond
+
+
+_ATOMS = (str, int, float, bool, type(None))
+
+
+def _dc(x):
+    """Deep copy; JSON-shaped data (the bulk) is copied by hand, anything else goes to copy.deepcopy."""
+    t = type(x)
+    if t is dict:
+        return {k: _dc(v) for k, v in x.items()}
+    if t is list:
+        return [_dc(v) for v in x]
+    if t in _ATOMS:
+        return x
+    return copy.deepcopy(x)
 
 
 @contextlib.contextmanager
@@ -213,7 +264,7 @@ def _rot(seq, k):
 def make_spec(kind, weighted, labelkind, n, recs, i):
     """Concrete description from universe-level records; metadata / weights / listing order rotate with i."""
     lab = LABELS[labelkind][i % 2]
-    nodes = [[lab[u], copy.deepcopy(NODE_MD[(i + 3 * u) % len(NODE_MD)])] for u in range(n)]
+    nodes = [[lab[u], _dc(NODE_MD[(i + 3 * u) % len(NODE_MD)])] for u in range(n)]
     nodes = _rot(nodes, i // 2)
     records = []
     for j, r in enumerate(recs):
@@ -221,7 +272,7 @@ def make_spec(kind, weighted, labelkind, n, recs, i):
             e = [[lab[u] for u in _rot(r["e"][0], i + j)], [lab[u] for u in _rot(r["e"][1], i + j + 1)]]
         else:
             e = [lab[u] for u in _rot(r["e"], i + j)]
-        rec = {"e": e, "md": copy.deepcopy(EDGE_MD[(i + j) % len(EDGE_MD)]),
+        rec = {"e": e, "md": _dc(EDGE_MD[(i + j) % len(EDGE_MD)]),
                "w": WEIGHTS[(i + 2 * j) % len(WEIGHTS)] if weighted else None}
         if "t" in r:
             rec["t"] = r["t"]
@@ -229,7 +280,7 @@ def make_spec(kind, weighted, labelkind, n, recs, i):
             rec["l"] = r["l"]
         records.append(rec)
     records = _rot(records, i // 3)
-    return {"kind": kind, "weighted": weighted, "hmeta": copy.deepcopy(HG_MD[i % len(HG_MD)]), "nodes": nodes,
+    return {"kind": kind, "weighted": weighted, "hmeta": _dc(HG_MD[i % len(HG_MD)]), "nodes": nodes,
             "records": records}
 
 
@@ -317,7 +368,7 @@ def random_spec(rng, kind, weighted, labelkind, max_nodes=7, max_recs=6, max_siz
 
 # ------------------------------------------------------------------------------------------------ real objects
 def add_edge(h, kind, r):
-    md = copy.deepcopy(r.get("md"))
+    md = _dc(r.get("md"))
     w = r.get("w")
     if kind == "H":
         h.add_edge(tuple(r["e"]), weight=w, metadata=md)
@@ -348,11 +399,11 @@ def fix_node_metadata(h, nodes):
     cur = h.get_nodes(metadata=True)
     for n, md in nodes:
         if n in cur and cur[n] != md:
-            setter(n, copy.deepcopy(md))
+            setter(n, _dc(md))
 
 
 def new_container(spec):
-    return _cls(spec["kind"])(weighted=spec["weighted"], hypergraph_metadata=copy.deepcopy(spec["hmeta"]))
+    return _cls(spec["kind"])(weighted=spec["weighted"], hypergraph_metadata=_dc(spec["hmeta"]))
 
 
 def build(spec):
@@ -360,14 +411,14 @@ def build(spec):
     kind = spec["kind"]
     h = new_container(spec)
     for n, md in spec["nodes"]:
-        h.add_node(n, metadata=copy.deepcopy(md))
+        h.add_node(n, metadata=_dc(md))
     for r in spec["records"]:
         add_edge(h, kind, r)
     if spec.get("detour"):
         detour(h, spec, len(spec["records"]))
     fix_node_metadata(h, spec["nodes"])
     if spec.get("hmeta_replaced"):
-        h.set_hypergraph_metadata(copy.deepcopy(spec["hmeta"]))
+        h.set_hypergraph_metadata(_dc(spec["hmeta"]))
     return h
 
 
@@ -377,7 +428,7 @@ def extra_record(spec, salt=0):
     labels = [n for n, _ in spec["nodes"]]
     keys = {rec_key(kind, r) for r in spec["records"]}
     w = [4, 1.5, 9][salt % 3] if spec["weighted"] else None
-    md = copy.deepcopy(EDGE_MD[(salt + 1) % len(EDGE_MD)])
+    md = _dc(EDGE_MD[(salt + 1) % len(EDGE_MD)])
     if not labels:
         return None
     if kind == "T":
@@ -414,7 +465,7 @@ def detour(h, spec, salt=0):
         if name == "hyperedge" and r is None:
             continue
         try:
-            step(copy.deepcopy(h))
+            step(_dc(h))
         except Exception:
             continue
         step(h)
@@ -425,7 +476,7 @@ def detour(h, spec, salt=0):
 def snapshot(h):
     """Deep snapshot through the public query API only."""
     tname = type(h).__name__
-    nodes = {n: copy.deepcopy(md) for n, md in h.get_nodes(metadata=True).items()}
+    nodes = {n: _dc(md) for n, md in h.get_nodes(metadata=True).items()}
     recs = {}
     for e in list(h.get_edges()):
         if tname == "Hypergraph":
@@ -440,9 +491,9 @@ def snapshot(h):
             key, w, md = (tuple(sorted(ns)), l), h.get_weight(ns, l), h.get_edge_metadata(ns, l)
         else:
             raise TypeError(f"unexpected container {tname}")
-        recs[key] = (w, copy.deepcopy(md))
+        recs[key] = (w, _dc(md))
     return {"type": tname, "weighted": h.is_weighted(), "node_list": sorted(h.get_nodes(), key=repr), "nodes": nodes,
-            "records": recs, "hmeta": copy.deepcopy(h.get_hypergraph_metadata())}
+            "records": recs, "hmeta": _dc(h.get_hypergraph_metadata())}
 
 
 def matches_description(snap, spec):
@@ -561,7 +612,7 @@ REMOVING = ("remove_node", "remove_edge", "clear")
 
 def rec_ident(r):
     """The identifying part of a record (what remove_edge needs)."""
-    return {k: copy.deepcopy(r[k]) for k in ("e", "t", "l") if k in r}
+    return {k: _dc(r[k]) for k in ("e", "t", "l") if k in r}
 
 
 def model_step(kind, st, op):
@@ -570,13 +621,15 @@ def model_step(kind, st, op):
     record (member nodes that are absent appear with empty metadata), remove_edge of a present record, remove_node
     (without keep_edges: its hyperedges disappear; with keep_edges: they lose the node, an emptied one disappears,
     never emitted when a shrunk hyperedge would coincide with a present one nor for a directed hyperedge),
-    clear followed by set_hypergraph_metadata."""
+    clear followed by set_hypergraph_metadata; and the in-place updates set_weight (weighted containers),
+    set_edge_metadata / set_node_metadata (the record is replaced), set_attr_to_* (one field is set),
+    remove_attr_from_* (one present field is deleted) on a present hyperedge / node, set_attr_to_hypergraph_metadata."""
     name = op[0]
     if name == "add_node":
         assert op[1] not in st["nodes"]
-        st["nodes"][op[1]] = copy.deepcopy(op[2])
+        st["nodes"][op[1]] = _dc(op[2])
     elif name == "add_edge":
-        r = copy.deepcopy(op[1])
+        r = _dc(op[1])
         assert rec_key(kind, r) not in st["recs"]
         for n in rec_nodes(kind, r):
             st["nodes"].setdefault(n, {})
@@ -597,13 +650,32 @@ def model_step(kind, st, op):
                         st["recs"][rec_key(kind, r2)] = r2
         del st["nodes"][n]
     elif name == "clear":
-        st["nodes"], st["recs"], st["hmeta"], st["exact"] = {}, {}, copy.deepcopy(op[1]), True
+        st["nodes"], st["recs"], st["hmeta"], st["exact"] = {}, {}, _dc(op[1]), True
+    elif name == "set_weight":  # weighted containers only
+        st["recs"][rec_key(kind, op[1])]["w"] = op[2]
+    elif name == "set_edge_md":
+        st["recs"][rec_key(kind, op[1])]["md"] = _dc(op[2])
+    elif name == "set_edge_attr":
+        assert op[2] not in RESERVED
+        st["recs"][rec_key(kind, op[1])]["md"][op[2]] = _dc(op[3])
+    elif name == "del_edge_attr":
+        del st["recs"][rec_key(kind, op[1])]["md"][op[2]]
+    elif name == "set_node_md":
+        assert op[1] in st["nodes"]
+        st["nodes"][op[1]] = _dc(op[2])
+    elif name == "set_node_attr":
+        st["nodes"][op[1]][op[2]] = _dc(op[3])
+    elif name == "del_node_attr":
+        del st["nodes"][op[1]][op[2]]
+    elif name == "set_hmeta_attr":
+        assert op[1] not in ("weighted", "type")
+        st["hmeta"][op[1]] = _dc(op[2])
     else:
         raise ValueError(f"unknown step {name}")
 
 
 def hist_model(spec):
-    st = {"nodes": {}, "recs": {}, "hmeta": copy.deepcopy(spec["hmeta"]), "exact": False}
+    st = {"nodes": {}, "recs": {}, "hmeta": _dc(spec["hmeta"]), "exact": False}
     for op in spec["ops"]:
         model_step(spec["kind"], st, op)
     return st
@@ -613,7 +685,7 @@ def apply_ops(h, kind, ops):
     for op in ops:
         name = op[0]
         if name == "add_node":
-            h.add_node(op[1], metadata=copy.deepcopy(op[2]))
+            h.add_node(op[1], metadata=_dc(op[2]))
         elif name == "add_edge":
             add_edge(h, kind, op[1])
         elif name == "remove_edge":
@@ -625,18 +697,36 @@ def apply_ops(h, kind, ops):
                 h.remove_node(op[1])
         elif name == "clear":
             h.clear()
-            h.set_hypergraph_metadata(copy.deepcopy(op[1]))
+            h.set_hypergraph_metadata(_dc(op[1]))
+        elif name in ("set_weight", "set_edge_md", "set_edge_attr", "del_edge_attr"):
+            r = op[1]
+            e = (tuple(r["e"][0]), tuple(r["e"][1])) if kind == "D" else tuple(r["e"])
+            at = e if kind in "HD" else (e, r["t"]) if kind == "T" else (e, r["l"])
+            at = (at,) if kind in "HD" else at
+            method = {"set_weight": "set_weight", "set_edge_md": "set_edge_metadata",
+                      "set_edge_attr": "set_attr_to_edge_metadata", "del_edge_attr": "remove_attr_from_edge_metadata"}[name]
+            getattr(h, method)(*at, *_dc(op[2:]))
+        elif name == "set_node_md":
+            h.set_node_metadata(op[1], _dc(op[2]))
+        elif name == "set_node_attr":
+            h.set_attr_to_node_metadata(op[1], op[2], _dc(op[3]))
+        elif name == "del_node_attr":
+            h.remove_attr_from_node_metadata(op[1], op[2])
+        elif name == "set_hmeta_attr":
+            h.set_attr_to_hypergraph_metadata(op[1], _dc(op[2]))
+        else:
+            raise ValueError(f"unknown step {name}")
 
 
 class Hist:
     """History under construction together with its abstract content."""
 
     def __init__(self, kind, weighted, hmeta):
-        self.kind, self.weighted, self.hmeta0, self.ops = kind, weighted, copy.deepcopy(hmeta), []
-        self.st = {"nodes": {}, "recs": {}, "hmeta": copy.deepcopy(hmeta), "exact": False}
+        self.kind, self.weighted, self.hmeta0, self.ops = kind, weighted, _dc(hmeta), []
+        self.st = {"nodes": {}, "recs": {}, "hmeta": _dc(hmeta), "exact": False}
 
     def do(self, *op):
-        op = copy.deepcopy(list(op))
+        op = _dc(list(op))
         model_step(self.kind, self.st, op)
         self.ops.append(op)
 
@@ -655,8 +745,16 @@ class Hist:
         return True
 
     def spec(self, script):
-        return {"kind": self.kind, "weighted": self.weighted, "hmeta": copy.deepcopy(self.hmeta0),
-                "ops": copy.deepcopy(self.ops), "script": script}
+        return {"kind": self.kind, "weighted": self.weighted, "hmeta": _dc(self.hmeta0),
+                "ops": _dc(self.ops), "script": script}
+
+    def mark(self):
+        """What follows is applied to the LOADED object (second generation)."""
+        self.split = len(self.ops)
+
+    def spec2(self, script):
+        return {"kind": self.kind, "weighted": self.weighted, "hmeta": _dc(self.hmeta0),
+                "ops": _dc(self.ops[:self.split]), "ops2": _dc(self.ops[self.split:]), "script": script}
 
 
 def base_hist(base):
@@ -672,8 +770,8 @@ def _other(pool, old, i):
     """A member of the pool different from old (rotating with i)."""
     for j in range(len(pool)):
         if pool[(i + j) % len(pool)] != old:
-            return copy.deepcopy(pool[(i + j) % len(pool)])
-    return copy.deepcopy(pool[0])
+            return _dc(pool[(i + j) % len(pool)])
+    return _dc(pool[0])
 
 
 def _refill(hb, base, i):
@@ -724,7 +822,7 @@ def scripted_histories(base, i, labelkind, has_clear):
     yield hb.spec("added then removed node with metadata")
     for u, v in enumerate(nodes):
         e = [[[z], [v]], [[v], [z]]][(i + u) % 2] if kind == "D" else [[z, v], [v, z]][(i + u) % 2]
-        r = {"e": e, "md": copy.deepcopy(EDGE_MD[(i + u + 1) % len(EDGE_MD)]), "w": WEIGHTS[(i + u) % len(WEIGHTS)] if weighted else None}
+        r = {"e": e, "md": _dc(EDGE_MD[(i + u + 1) % len(EDGE_MD)]), "w": WEIGHTS[(i + u) % len(WEIGHTS)] if weighted else None}
         if kind == "T":
             r["t"] = TIMES[(i + u) % 2]
         if kind == "M":
@@ -823,7 +921,7 @@ def node_view(h):
     """Node metadata as reported node by node, for exactly the nodes get_nodes() lists."""
     getter = getattr(h, "get_node_metadata", None)
     allmd = None if getter is not None else h.get_nodes(metadata=True)
-    return {n: copy.deepcopy(getter(n) if getter is not None else allmd[n]) for n in h.get_nodes()}
+    return {n: _dc(getter(n) if getter is not None else allmd[n]) for n in h.get_nodes()}
 
 
 def conforms(snap, nview, spec, model):
@@ -855,6 +953,35 @@ def hist_desc(spec, model, fmt):
     return {"k": kind, "w": spec["weighted"], "fmt": fmt, "script": spec["script"], "steps": len(spec["ops"]),
             "h": zlib.crc32(json.dumps([spec["hmeta"], spec["ops"]], sort_keys=True).encode()),
             "n": list(model["nodes"]), "r": [[r["e"], r.get("t", r.get("l"))] for r in model["recs"].values()]}
+
+
+def compare_with_model(chk, loaded, nv, model, weighted, ref, all_md_ok):
+    """The clauses of the statement on a loaded object (snapshot `loaded`, node by node view `nv`) against the abstract
+    content `model`.  `ref` is the snapshot of an object that conforms to the model (see conforms): it supplies what
+    the model leaves open - the weights an unweighted container reports and the entries the constructor adds to the
+    hypergraph metadata.  chk(cond, clause, expected, observed) receives one call per clause."""
+    want_nodes, want = model["nodes"], model["recs"]
+    chk(len(loaded["node_list"]) == len(want_nodes) and set(loaded["node_list"]) == set(want_nodes)
+        and (not all_md_ok or set(loaded["nodes"]) == set(want_nodes)),
+        "same nodes (including isolated ones)", lambda: sorted(want_nodes, key=repr),
+        lambda: {"get_nodes()": loaded["node_list"], "get_nodes(metadata=True)": sorted(loaded["nodes"], key=repr)})
+    chk(set(loaded["records"]) == set(want), "same hyperedges with their direction, times or layers",
+        lambda: sorted(map(repr, want)), lambda: sorted(map(repr, loaded["records"])))
+    chk(loaded["weighted"] == weighted, "same weightedness", weighted, loaded["weighted"])
+    common = [k for k in want if k in loaded["records"]]
+    if loaded["weighted"] == weighted:
+        exp = {k: (want[k]["w"] if weighted else ref["records"][k][0]) for k in common}
+        bad = [k for k in common if not loaded["records"][k][0] == exp[k]]
+        chk(not bad, "same weights", lambda: {repr(k): exp[k] for k in bad},
+            lambda: {repr(k): loaded["records"][k][0] for k in bad})
+    chk(loaded["hmeta"] == ref["hmeta"], "same hypergraph metadata", ref["hmeta"], loaded["hmeta"])
+    badn = [n for n in want_nodes if (n in nv and nv[n] != want_nodes[n])
+            or (all_md_ok and n in loaded["nodes"] and loaded["nodes"][n] != want_nodes[n])]
+    chk(not badn, "same node metadata", lambda: {repr(n): want_nodes[n] for n in badn},
+        lambda: {repr(n): [nv.get(n), loaded["nodes"].get(n)] for n in badn})
+    bade = [k for k in common if strip_reserved(loaded["records"][k][1]) != strip_reserved(want[k]["md"])]
+    chk(not bade, "same hyperedge metadata modulo reserved keys", lambda: {repr(k): want[k]["md"] for k in bade},
+        lambda: {repr(k): loaded["records"][k][1] for k in bade})
 
 
 def history_case(rep, spec, fmt, tmpdir, model=None):
@@ -912,28 +1039,386 @@ def history_case(rep, spec, fmt, tmpdir, model=None):
     def chk(cond, cl, expected, observed):
         rep.check(cond, LOAD, cl, spec, expected=expected, observed=observed, key=f"{LOAD}:{cl}{tag}", replay=rp)
 
-    want_nodes, want = model["nodes"], model["recs"]
-    chk(len(loaded["node_list"]) == len(want_nodes) and set(loaded["node_list"]) == set(want_nodes)
-        and (not all_md_ok or set(loaded["nodes"]) == set(want_nodes)),
-        "same nodes (including isolated ones)", lambda: sorted(want_nodes, key=repr),
-        lambda: {"get_nodes()": loaded["node_list"], "get_nodes(metadata=True)": sorted(loaded["nodes"], key=repr)})
-    chk(set(loaded["records"]) == set(want), "same hyperedges with their direction, times or layers",
-        lambda: sorted(map(repr, want)), lambda: sorted(map(repr, loaded["records"])))
-    chk(loaded["weighted"] == spec["weighted"], "same weightedness", spec["weighted"], loaded["weighted"])
-    common = [k for k in want if k in loaded["records"]]
-    if loaded["weighted"] == spec["weighted"]:
-        exp = {k: (want[k]["w"] if spec["weighted"] else before["records"][k][0]) for k in common}
-        bad = [k for k in common if not loaded["records"][k][0] == exp[k]]
-        chk(not bad, "same weights", lambda: {repr(k): exp[k] for k in bad},
-            lambda: {repr(k): loaded["records"][k][0] for k in bad})
-    chk(loaded["hmeta"] == before["hmeta"], "same hypergraph metadata", before["hmeta"], loaded["hmeta"])
-    badn = [n for n in want_nodes if (n in nv and nv[n] != want_nodes[n])
-            or (all_md_ok and n in loaded["nodes"] and loaded["nodes"][n] != want_nodes[n])]
-    chk(not badn, "same node metadata", lambda: {repr(n): want_nodes[n] for n in badn},
-        lambda: {repr(n): [nv.get(n), loaded["nodes"].get(n)] for n in badn})
-    bade = [k for k in common if strip_reserved(loaded["records"][k][1]) != strip_reserved(want[k]["md"])]
-    chk(not bade, "same hyperedge metadata modulo reserved keys", lambda: {repr(k): want[k]["md"] for k in bade},
-        lambda: {repr(k): loaded["records"][k][1] for k in bade})
+    compare_with_model(chk, loaded, nv, model, spec["weighted"], before, all_md_ok)
+    return "done"
+
+
+# ------------------------------------------------------------------------------------------------ second generation
+# A loaded object is not only looked at: it is edited through the public mutators, compared with the abstract content
+# (that of the history before saving plus the edits), saved again and loaded again.  A spec carries two step lists:
+# "ops" builds the object that is saved first, "ops2" is applied to what load_hypergraph returned.
+SHORT = {"H": "Hypergraph", "D": "Directed", "T": "Temporal", "M": "Multiplex"}
+FMT_PAIRS = [("json", "json"), ("json", "hgx"), ("hgx", "json"), ("hgx", "hgx")]
+ATTR_VALUES = [7, "late", {"deep": [1, {"x": None}]}, [0.5, "é"], True, None]
+
+
+def edit_caps(kind):
+    """Which in-place setters the container type offers (MultiplexHypergraph has no set_edge_metadata /
+    set_node_metadata)."""
+    c = _cls(kind)
+    return {"set_edge_md": hasattr(c, "set_edge_metadata"), "set_node_md": hasattr(c, "set_node_metadata")}
+
+
+def fresh_record(hb, salt, member=None):
+    """A record the abstract content does not hold, over its nodes (plus `member`, which must then belong to it);
+    at a present or at a new time / layer; None if there is none."""
+    kind = hb.kind
+    labels = list(hb.st["nodes"])
+    if member is not None and member not in labels:
+        labels.append(member)
+    labels = labels[:5]
+    sets = [list(c) for k in range(1, len(labels) + 1) for c in itertools.combinations(labels, k)]
+    if kind == "H":
+        cands = [{"e": s} for s in sets]
+    elif kind == "D":
+        cands = [{"e": [s, t]} for s in sets for t in sets if not set(s) & set(t)]
+    elif kind == "T":
+        cands = [{"e": s, "t": t} for s in sets for t in TIMES + (31,)]
+    else:
+        cands = [{"e": s, "l": l} for s in sets for l in LAYERS + ("zz",)]
+    cands = [r for r in cands if rec_key(kind, r) not in hb.st["recs"] and (member is None or member in rec_nodes(kind, r))]
+    if not cands:
+        return None
+    r = cands[(salt * 7 + 3) % len(cands)]
+    if kind == "D":
+        r["e"] = [_rot(r["e"][0], salt), _rot(r["e"][1], salt + 1)]
+    else:
+        r["e"] = _rot(r["e"], salt)
+    r["md"] = _dc(EDGE_MD[(salt + 1) % len(EDGE_MD)])
+    r["w"] = [4, 1.5, 9, 0.125][salt % 4] if hb.weighted else None
+    return r
+
+
+def scripted_second(base, i, labelkind, caps):
+    """Every single edit of each kind on the object loaded from the file of a directly built base object (or of the
+    base object less one record), i rotating the free choices."""
+    kind, weighted = base["kind"], base["weighted"]
+    nodes = [n for n, _ in base["nodes"]]
+    z = "zz" if labelkind == "str" else 999
+    zmd = {"late": True, "attrs": {"i": i % 5}}
+
+    def start(removed=None):
+        hb = base_hist(base)
+        if removed is not None:
+            hb.do("remove_edge", rec_ident(removed))
+        hb.mark()
+        return hb
+
+    def again(r, k):
+        return dict(r, md=_other(EDGE_MD, r["md"], k), w=_other(WEIGHTS, r["w"], k) if weighted else None)
+
+    for j, r in enumerate(base["records"]):
+        k = i + j
+        if weighted:
+            hb = start()
+            hb.do("set_weight", rec_ident(r), _other(WEIGHTS, r["w"], k))
+            yield hb.spec2("set_weight")
+        hb = start()
+        hb.do("set_edge_attr", rec_ident(r), "note", ATTR_VALUES[k % len(ATTR_VALUES)])
+        if r["md"]:
+            hb.do("del_edge_attr", rec_ident(r), sorted(r["md"])[k % len(r["md"])])
+        yield hb.spec2("hyperedge metadata fields set / deleted")
+        if caps["set_edge_md"]:
+            hb = start()
+            hb.do("set_edge_md", rec_ident(r), _other(EDGE_MD, r["md"], k))
+            yield hb.spec2("hyperedge metadata replaced")
+        hb = start()
+        hb.do("remove_edge", rec_ident(r))
+        hb.do("add_edge", again(r, k))
+        yield hb.spec2("hyperedge removed and re-inserted")
+        hb = start()
+        hb.do("remove_edge", rec_ident(r))
+        f = fresh_record(hb, k)
+        if f is not None:
+            hb.do("add_edge", f)
+            yield hb.spec2("hyperedge removed, new hyperedge")
+        hb = start(removed=r)
+        f = fresh_record(hb, k + 1)
+        if f is not None and rec_key(kind, f) != rec_key(kind, r):
+            hb.do("add_edge", f)
+        hb.do("add_edge", again(r, k + 1))
+        if weighted:
+            hb.do("set_weight", rec_ident(r), _other(WEIGHTS, hb.st["recs"][rec_key(kind, r)]["w"], k))
+        yield hb.spec2("hyperedge removed before saving; new hyperedge and re-insertion after loading")
+    for u, v in enumerate(nodes):
+        k = i + u
+        hb = start()
+        hb.do("set_node_attr", v, "late", ATTR_VALUES[(k + 2) % len(ATTR_VALUES)])
+        old = hb.st["nodes"][v]
+        if len(old) > 1:
+            hb.do("del_node_attr", v, sorted(x for x in old if x != "late")[k % (len(old) - 1)])
+        yield hb.spec2("node metadata fields set / deleted")
+        if caps["set_node_md"]:
+            hb = start()
+            hb.do("set_node_md", v, _other(NODE_MD, hb.st["nodes"][v], k))
+            yield hb.spec2("node metadata replaced")
+        for keep in (False, True):
+            hb = start()
+            if keep and (not hb.incident(v) or not hb.can_keep(v)):
+                continue
+            hb.do("remove_node", v, keep)
+            f = fresh_record(hb, k)
+            if f is not None:
+                hb.do("add_edge", f)
+            yield hb.spec2("remove_node" + (" keep_edges" if keep else "") + ", new hyperedge")
+        hb = start()
+        hb.do("add_node", z, zmd)
+        f = fresh_record(hb, k, member=z)
+        if f is not None:
+            hb.do("add_edge", f)
+        yield hb.spec2("new node joined by a new hyperedge")
+    hb = start()
+    for s in range(2):
+        f = fresh_record(hb, i + s)
+        if f is not None:
+            hb.do("add_edge", f)
+            yield hb.spec2("new hyperedge" if s == 0 else "two new hyperedges")
+    hb = start()
+    hb.do("add_node", z, zmd)
+    yield hb.spec2("new isolated node")
+    hb = start()
+    hb.do("set_hmeta_attr", "edited", ATTR_VALUES[i % len(ATTR_VALUES)])
+    yield hb.spec2("hypergraph metadata field set")
+    hb = start()
+    for j, r in enumerate(base["records"]):
+        if weighted:
+            hb.do("set_weight", rec_ident(r), _other(WEIGHTS, r["w"], i + j + 1))
+    if nodes:
+        hb.do("set_node_attr", nodes[i % len(nodes)], "late", ATTR_VALUES[(i + 1) % len(ATTR_VALUES)])
+    hb.do("add_node", z, zmd)
+    f = fresh_record(hb, i + 2, member=z)
+    if f is not None:
+        hb.do("add_edge", f)
+    if base["records"]:
+        hb.do("remove_edge", rec_ident(base["records"][0]))
+        last = base["records"][-1]
+        if len(base["records"]) > 1:
+            hb.do("set_edge_attr", rec_ident(last), "note", ATTR_VALUES[(i + 3) % len(ATTR_VALUES)])
+    f = fresh_record(hb, i + 4)
+    if f is not None:
+        hb.do("add_edge", f)
+    hb.do("set_hmeta_attr", "edited", ATTR_VALUES[(i + 2) % len(ATTR_VALUES)])
+    yield hb.spec2("all kinds of edit in a row")
+
+
+def second_plans(quick):
+    if quick:
+        return {"H": [(0, 0), (1, 1), (2, 2), (3, 1)], "D": [(2, 2), (3, 1)], "T": [(1, 2), (2, 2), (3, 1)],
+                "M": [(1, 2), (2, 2), (3, 1)]}
+    return {"H": [(0, 0), (1, 1), (2, 3), (3, 3)], "D": [(2, 2), (3, 2)], "T": [(1, 2), (2, 3), (3, 2)],
+            "M": [(1, 2), (2, 3), (3, 2)]}
+
+
+def random_edits(rng, hb, pool, caps, has_clear, n_steps):
+    """Random steps on the abstract content of hb, of every kind (construction, removal, in-place update)."""
+    kind, weighted = hb.kind, hb.weighted
+    for _ in range(n_steps):
+        c = rng.random()
+        nodes, recs = list(hb.st["nodes"]), list(hb.st["recs"].values())
+        if c < 0.10:
+            absent = [x for x in pool if x not in hb.st["nodes"]]
+            if absent:
+                hb.do("add_node", rng.choice(absent), rand_md(rng, 0.15))
+        elif c < 0.30:
+            r = random_record(rng, hb, pool)
+            if r is not None:
+                hb.do("add_edge", r)
+        elif c < 0.38:
+            if recs:
+                hb.do("remove_edge", rec_ident(rng.choice(recs)))
+        elif c < 0.46:
+            if recs:
+                r = rng.choice(recs)
+                hb.do("remove_edge", rec_ident(r))
+                hb.do("add_edge", dict(r, md=rand_md(rng), w=(rng.choice([3, 0.25, 8, 1.5]) if weighted else None)))
+        elif c < 0.56:
+            if nodes:
+                v = rng.choice(nodes)
+                hb.do("remove_node", v, rng.random() < 0.45 and hb.can_keep(v))
+        elif c < 0.70:
+            if recs and weighted:
+                hb.do("set_weight", rec_ident(rng.choice(recs)), rng.choice([3, 0.25, 8, 1.5, 6.0, 11]))
+        elif c < 0.80:
+            if recs:
+                r = rng.choice(recs)
+                keys = sorted(r["md"])
+                if keys and rng.random() < 0.3:
+                    hb.do("del_edge_attr", rec_ident(r), rng.choice(keys))
+                elif caps["set_edge_md"] and rng.random() < 0.4:
+                    hb.do("set_edge_md", rec_ident(r), rand_md(rng))
+                else:
+                    hb.do("set_edge_attr", rec_ident(r), rng.choice(["note", "name", "x", "w8", "ü"]), rand_json(rng, 2))
+        elif c < 0.92:
+            if nodes:
+                v = rng.choice(nodes)
+                keys = sorted(hb.st["nodes"][v])
+                if keys and rng.random() < 0.3:
+                    hb.do("del_node_attr", v, rng.choice(keys))
+                elif caps["set_node_md"] and rng.random() < 0.4:
+                    hb.do("set_node_md", v, rand_md(rng))
+                else:
+                    hb.do("set_node_attr", v, rng.choice(["note", "name", "x", "w8", "ü"]), rand_json(rng, 2))
+        elif c < 0.98 or not has_clear:
+            hb.do("set_hmeta_attr", rng.choice(["edited", "name", "x"]), rand_json(rng, 2))
+        else:
+            hb.do("clear", rand_md(rng))
+
+
+def random_second(rng, kind, weighted, labelkind, has_clear, caps):
+    """A random object, optionally some random steps (removals included) before the first save, 1-8 random steps on
+    the loaded object."""
+    base = random_spec(rng, kind, weighted, labelkind, max_nodes=6, max_recs=5, max_size=4)
+    hb = base_hist(base)
+    held = [n for n, _ in base["nodes"]]
+    extra = [x for x in ([61, 62, 63, 64] if labelkind == "int" else ["q", "n3", "33", "W"]) if x not in held]
+    pool = held + extra[:3]
+    if rng.random() < 0.6:
+        random_edits(rng, hb, pool, caps, has_clear, rng.randrange(1, 6))
+    hb.mark()
+    random_edits(rng, hb, pool, caps, has_clear, rng.randrange(1, 9))
+    if len(hb.ops) == hb.split:  # every draw was a step that had nothing to act on
+        hb.do("set_hmeta_attr", "edited", rand_json(rng, 1))
+    return hb.spec2("random")
+
+
+def second_models(spec):
+    st = {"nodes": {}, "recs": {}, "hmeta": _dc(spec["hmeta"]), "exact": False}
+    for op in spec["ops"]:
+        model_step(spec["kind"], st, op)
+    m1 = _dc(st)
+    for op in spec["ops2"]:
+        model_step(spec["kind"], st, op)
+    return m1, st
+
+
+def second_desc(spec, model, fmt1, fmt2):
+    d = hist_desc(dict(spec, ops=spec["ops"] + [["save+load"]] + spec["ops2"]), model, fmt1 + ">" + fmt2)
+    d["steps"] = [len(spec["ops"]), len(spec["ops2"])]
+    return d
+
+
+def second_twin(spec, m2):
+    """The never-saved twin: the same steps and edits on an object that does not go through a file.  Returns its
+    snapshot, or the reason why the case cannot be judged."""
+    kind = spec["kind"]
+    try:
+        with quiet():
+            twin = new_container(spec)
+            apply_ops(twin, kind, spec["ops"])
+            apply_ops(twin, kind, spec["ops2"])
+            ref, ref_nv = snapshot(twin), node_view(twin)
+    except Exception:
+        return "steps raised on a never-saved object"
+    if not conforms(ref, ref_nv, spec, m2):
+        return "never-saved object does not hold the abstract content"
+    return ref
+
+
+def second_case(rep, spec, fmt1, fmt2s, tmpdir, models=None, ref=None):
+    """save -> load -> edit the loaded object -> compare with the abstract content -> for each format of fmt2s: save
+    again -> load again -> compare again."""
+    from hypergraphx.readwrite import save_hypergraph, load_hypergraph
+    kind = spec["kind"]
+    tname = KINDS[kind]
+    weighted = spec["weighted"]
+    rp = {"part": "second", "spec": spec, "fmt": fmt1, "fmt2": list(fmt2s)}
+    m1, m2 = models or second_models(spec)
+    ref = ref if ref is not None else second_twin(spec, m2)
+    if isinstance(ref, str):
+        return ref
+    all_md_ok = ref["nodes"] == m2["nodes"]
+    # first generation (its clauses belong to the round-trip / history cases: nothing is evaluated here)
+    try:
+        with quiet():
+            h = new_container(spec)
+            apply_ops(h, kind, spec["ops"])
+            first, first_nv = snapshot(h), node_view(h)
+    except Exception:
+        return "history raised"
+    if not conforms(first, first_nv, spec, m1):
+        return "history mismatch"
+    try:
+        with quiet():
+            path = _fresh(tmpdir, "g1." + fmt1)
+            save_hypergraph(h, path, binary=(fmt1 == "hgx"))
+            g = load_hypergraph(path)
+            got, got_nv = snapshot(g), node_view(g)
+    except Exception:
+        return "first save / load raised"
+    wrong = []
+    if type(g) is not type(h):
+        wrong.append("type")
+    else:
+        compare_with_model(lambda cond, cl, e, o: cond or wrong.append(cl), got, got_nv, m1, weighted, first,
+                           first["nodes"] == m1["nodes"])
+    if wrong:
+        return "first generation differs already"
+
+    def chk(cond, cl, expected, observed, stage, sub=""):
+        return rep.check(cond, LOAD, cl, spec, expected=expected, observed=observed,
+                         key=f"{LOAD}:{cl}{sub} [gen2 {stage}] [{SHORT[kind]}/{fmt1}]", replay=rp)
+
+    # the edits, on the loaded object
+    cl_e = "same hyperedges with their direction, times or layers"
+    try:
+        with quiet():
+            apply_ops(g, kind, spec["ops2"])
+    except Exception as ex:
+        rep.check(False, LOAD, cl_e, spec, expected="the loaded object takes the edits the never-saved object takes",
+                  observed=repr(ex), key=f"{LOAD}:same hyperedges (an edit of the loaded object raises) [gen2 edit] "
+                                         f"[{SHORT[kind]}/{fmt1}]", replay=rp)
+        return "done"
+    try:
+        edited, edited_nv = snapshot(g), node_view(g)
+    except Exception as ex:
+        rep.check(False, LOAD, cl_e, spec, observed="public getter of the edited loaded object raised " + repr(ex),
+                  key=f"{LOAD}:same hyperedges (getters raise) [gen2 edit] [{SHORT[kind]}/{fmt1}]", replay=rp)
+        return "done"
+    ok = []
+    compare_with_model(lambda cond, cl, e, o: ok.append(chk(cond, cl, e, o, "edit")), edited, edited_nv, m2, weighted,
+                       ref, all_md_ok)
+    if not all(ok):
+        return "done"
+    # second round trip(s)
+    for fmt2 in fmt2s:
+        tag = f" [gen2 save] [{SHORT[kind]}/{fmt1}>{fmt2}]"
+        path = _fresh(tmpdir, "g2." + fmt2)
+        try:
+            with quiet():
+                save_hypergraph(g, path, binary=(fmt2 == "hgx"))
+        except Exception as ex:
+            rep.check(False, SAVE, RAISES, spec, observed=repr(ex), key=f"{SAVE}:{RAISES}{tag}", replay=rp)
+            continue
+        rep.check(True, SAVE, RAISES, spec)
+        try:
+            after, after_nv = snapshot(g), node_view(g)
+        except Exception as ex:
+            after, after_nv = {"getter raised": repr(ex)}, None
+        cl = "saving does not modify the object being saved"
+        rep.check(after == edited and after_nv == edited_nv, SAVE, cl, spec, expected=lambda: _show(edited),
+                  observed=lambda: _show(after) if "type" in after else after, key=f"{SAVE}:{cl}{tag}", replay=rp)
+        try:
+            with quiet():
+                g2 = load_hypergraph(path)
+        except Exception as ex:
+            rep.check(False, LOAD, RAISES, spec, observed=repr(ex), key=f"{LOAD}:{RAISES}{tag}", replay=rp)
+            continue
+        rep.check(True, LOAD, RAISES, spec)
+        cl = "returns an object of the same type"
+        if not rep.check(type(g2) is type(g), LOAD, cl, spec, expected=tname, observed=type(g2).__name__,
+                         key=f"{LOAD}:{cl}{tag}", replay=rp):
+            continue
+        try:
+            loaded, nv = snapshot(g2), node_view(g2)
+        except Exception as ex:
+            rep.check(False, LOAD, cl_e, spec, observed="public getter of the loaded object raised " + repr(ex),
+                      key=f"{LOAD}:same hyperedges (getters raise){tag}", replay=rp)
+            continue
+        compare_with_model(lambda cond, cl, e, o: rep.check(cond, LOAD, cl, spec, expected=e, observed=o,
+                                                            key=f"{LOAD}:{cl}{tag}", replay=rp),
+                           loaded, nv, m2, weighted, ref, all_md_ok)
+        if after != edited or after_nv != edited_nv:
+            break  # the object is no longer the one the abstract content describes
     return "done"
 
 
@@ -1079,7 +1564,7 @@ def hif_doc(node_names, edge_names, inc_sets, i, rng=None):
             continue
         rec = {"node": nn}
         if (u + i) % 3 != 2:
-            rec["attrs"] = copy.deepcopy(NODE_MD[(u + i) % len(NODE_MD)])
+            rec["attrs"] = _dc(NODE_MD[(u + i) % len(NODE_MD)])
         if (u + i) % 2:
             rec["weight"] = 1 + u
         nodes.append(rec)
@@ -1092,7 +1577,7 @@ def hif_doc(node_names, edge_names, inc_sets, i, rng=None):
             continue
         rec = {"edge": en}
         if (j + i) % 3 != 1:
-            rec["attrs"] = copy.deepcopy(EDGE_MD[(j + i) % len(EDGE_MD)])
+            rec["attrs"] = _dc(EDGE_MD[(j + i) % len(EDGE_MD)])
         if (j + i) % 2 == 0:
             rec["weight"] = 2.5 * (j + 1)
         edges.append(rec)
@@ -1317,6 +1802,7 @@ def _task_rng(seed, task):
 
 N_PARTS = 2
 N_HPARTS = 3
+N_SPARTS = 4
 
 
 def _worker(args):
@@ -1355,6 +1841,19 @@ def _worker(args):
             has_clear = hasattr(_cls(kind), "clear")
             for j in range(150 if quick else 2500):
                 _hist(sink, rep, random_history(rng, kind, weighted, labelkind, has_clear), tmp)
+        elif what == "second-small":
+            _, kind, weighted, labelkind, part = task
+            caps = edit_caps(kind)
+            for i, base in enumerate(small_specs(kind, weighted, labelkind, second_plans(quick)[kind])):
+                if i % N_SPARTS == part:
+                    for spec in scripted_second(base, i, labelkind, caps):
+                        _second(sink, rep, spec, tmp, FMT_PAIRS)
+        elif what == "second-random":
+            _, kind, weighted, labelkind = task
+            has_clear, caps = hasattr(_cls(kind), "clear"), edit_caps(kind)
+            for j in range(120 if quick else 2000):
+                spec = random_second(rng, kind, weighted, labelkind, has_clear, caps)
+                _second(sink, rep, spec, tmp, FMT_PAIRS[j % 2::2] if quick else FMT_PAIRS)
         elif what == "hgr":
             gen = hgr_files_exhaustive(4, lambda v: 3) if quick else hgr_files_exhaustive(5, lambda v: 4 if v <= 4 else 3)
             for i, (text, style, k) in enumerate(gen):
@@ -1392,6 +1891,9 @@ def run(ctx):
     ctx.rule("round trip after a history: one case = (list of construction / removal steps, file format); every single "
              "edit of each scripted kind on every small directly built object, then seeded random step sequences; "
              "non-trivial = the history contains a remove_node, remove_edge or clear step")
+    ctx.rule("second generation: one case = (steps before the first save, edits of the loaded object, first format, "
+             "second format); every single edit of each scripted kind on the object loaded from the file of every small "
+             "directly built object, then seeded random step sequences; every case is non-trivial (at least one edit)")
     ctx.rule("hMETIS: one case = one generated file text; non-trivial = at least one hyperedge line")
     ctx.rule("HIF: one case = one generated document; non-trivial = at least one incidence")
     ctx.assume("json and pickle of the standard library are correct")
@@ -1399,12 +1901,17 @@ def run(ctx):
                "is_weighted) report the content of a container faithfully (C01-C04)")
     ctx.assume("histories: an object whose getters do not report the abstract content of its history (computed from the "
                "steps with plain dicts) is not saved at all; such cases are counted as skipped")
+    ctx.assume("second generation: the edited loaded object is only judged when a never-saved twin that went through the "
+               "same steps and edits reports the abstract content, and when the loaded object agreed with the saved "
+               "content before the edits; other cases are counted as skipped")
     ctx.assume("weights are compared numerically (2 == 2.0), metadata with Python ==")
     configs = [(k, w, l) for k in "HDTM" for w in (False, True) for l in ("int", "str")]
     tasks = [("small",) + c + (p,) for c in configs for p in range(N_PARTS)]
     tasks += [("random",) + c for c in configs]
     tasks += [("hist-small",) + c + (p,) for c in configs for p in range(N_HPARTS)]
     tasks += [("hist-random",) + c for c in configs]
+    tasks += [("second-small",) + c + (p,) for c in configs for p in range(N_SPARTS)]
+    tasks += [("second-random",) + c for c in configs]
     tasks += [("hgr", p) for p in range(4)] + [("hgr-random",), ("hif", 0), ("hif", 1), ("hif-random",)]
     run_tasks(ctx, _worker, [(ctx.seed, quick, t) for t in tasks])
     ctx.exhaustive_parts.append(
@@ -1415,6 +1922,14 @@ def run(ctx):
         "remove_edge, hyperedge re-insertion, add-then-remove of a node with metadata alone / with a hyperedge, clear "
         "and refill, emptied by removals and refilled) on all directly built containers over %r (n, k) x 4 types x "
         "{weighted, unweighted} x {int, str labels} x {.json, .hgx}" % (hist_plans(quick),))
+    ctx.exhaustive_parts.append(
+        "second generation: every single edit of each scripted kind (set_weight, hyperedge / node metadata field set and "
+        "deleted, hyperedge / node metadata replaced, hyperedge removed and re-inserted, hyperedge removed and a new one "
+        "inserted, hyperedge removed before saving and re-inserted after loading, remove_node without / with keep_edges "
+        "then a new hyperedge, new node joined by a new hyperedge, one / two new hyperedges, new isolated node, "
+        "hypergraph metadata field, all in a row) on the objects loaded from the files of all directly built containers "
+        "over %r (n, k) x 4 types x {weighted, unweighted} x {int, str labels} x all 4 pairs of formats"
+        % (second_plans(quick),))
     ctx.exhaustive_parts.append("all .hgr files with <= %s distinct hyperedges over <= %d vertices x 4 header formats "
                                 "(layout style rotating)" % (("3", 4) if quick else ("4 (3 for 5 vertices)", 5)))
     ctx.exhaustive_parts.append("all undirected HIF incidence structures with <= 3 edges of distinct non-empty "
@@ -1439,6 +1954,20 @@ def _hist(ctx, rep, spec, tmp):
             ctx.count(f"history round trip skipped or cut short: {status} [{KINDS[spec['kind']]}; {spec['script']}]")
 
 
+def _second(ctx, rep, spec, tmp, pairs):
+    models = second_models(spec)
+    ref = second_twin(spec, models[1])
+    for fmt1 in ("json", "hgx"):
+        fmt2s = [b for a, b in pairs if a == fmt1]
+        if not fmt2s:
+            continue
+        for fmt2 in fmt2s:
+            ctx.case(second_desc(spec, models[1], fmt1, fmt2), nontrivial=True)
+        status = second_case(rep, spec, fmt1, fmt2s, tmp, models, ref)
+        if status != "done":
+            ctx.count(f"second generation skipped: {status} [{KINDS[spec['kind']]}; {spec['script']}]", len(fmt2s))
+
+
 def replay(data):
     rep = Rep()
     with tempfile.TemporaryDirectory(prefix="hv-c06-replay-") as tmp:
@@ -1449,6 +1978,10 @@ def replay(data):
         elif data["part"] == "history":
             status = history_case(rep, data["spec"], data["fmt"], tmp)
             if status not in ("done", "save raised", "load raised"):
+                return True, f"case not executable on this tree: {status}"
+        elif data["part"] == "second":
+            status = second_case(rep, data["spec"], data["fmt"], data["fmt2"], tmp)
+            if status != "done":
                 return True, f"case not executable on this tree: {status}"
         elif data["part"] == "hgr":
             hgr_case(rep, data["text"], tmp, data.get("style", 0))
